@@ -123,6 +123,28 @@ type runSpec struct {
 	env    []envWrite
 	round  []lib.CsWrite // op kinds and keys; expected revisions filled at run time
 	roundMode []int
+	// splits: the engine reports its key space cut at these raw keys (GetPartitions): the pass runs one concurrent
+	// worker per (adjusted) partition. Engine "tikv-split": a TiKV mock whose regions are split there.
+	splits [][]byte
+}
+
+const engTiKVSplit = "tikv-split"
+
+// cutPartitions is GetPartitions of an engine whose regions are cut at the given raw keys.
+func cutPartitions(splits [][]byte) func(start, end []byte) []storage.Partition {
+	ss := append([][]byte{}, splits...)
+	sort.Slice(ss, func(i, j int) bool { return bytes.Compare(ss[i], ss[j]) < 0 })
+	return func(start, end []byte) []storage.Partition {
+		var ps []storage.Partition
+		cur := start
+		for _, sp := range ss {
+			if bytes.Compare(sp, cur) > 0 && bytes.Compare(sp, end) < 0 {
+				ps = append(ps, storage.Partition{Start: cur, End: sp})
+				cur = sp
+			}
+		}
+		return append(ps, storage.Partition{Start: cur, End: end})
+	}
 }
 
 type readSpec struct {
@@ -275,7 +297,14 @@ func (w *worker) runVariant(cfg config, pre []lib.KV, preDec []lib.CsRec, hist u
 		return
 	}
 	freshEngine := func() (storage.KvStorage, func(), error) {
-		inner, closer, err := lib.NewEngine(rs.engine, w.scratch)
+		var inner storage.KvStorage
+		var closer func()
+		var err error
+		if rs.engine == engTiKVSplit {
+			inner, closer, err = lib.NewTiKVSplit(rs.splits...)
+		} else {
+			inner, closer, err = lib.NewEngine(rs.engine, w.scratch)
+		}
 		if err != nil {
 			return nil, nil, err
 		}
@@ -314,12 +343,32 @@ func (w *worker) runVariant(cfg config, pre []lib.KV, preDec []lib.CsRec, hist u
 	}
 	firedIdx := map[int]bool{}
 	wrap := &lib.Wrap{KvStorage: inner}
+	if rs.splits != nil && rs.engine != engTiKVSplit {
+		wrap.Partitions = cutPartitions(rs.splits)
+	}
+	// with several partitions the workers run concurrently: the delete calls are collected with their raw key and
+	// put in key order afterwards - the order of one worker per range, as long as no key is split over two workers
+	type pcall struct {
+		key  []byte
+		kind string
+	}
+	var pcalls []pcall
 	wrap.Before = func(kind string, key []byte) error {
 		if kind != "del" && kind != "delcur" {
 			return nil
 		}
 		mu.Lock()
 		if !inCompact {
+			mu.Unlock()
+			return nil
+		}
+		if rs.splits != nil {
+			calls++
+			k := "KDel"
+			if kind == "delcur" {
+				k = "KDelCur"
+			}
+			pcalls = append(pcalls, pcall{append([]byte{}, key...), k})
 			mu.Unlock()
 			return nil
 		}
@@ -396,6 +445,13 @@ func (w *worker) runVariant(cfg config, pre []lib.KV, preDec []lib.CsRec, hist u
 	inCompact = false
 	mu.Unlock()
 	_ = cerr
+	if rs.splits != nil {
+		sort.SliceStable(pcalls, func(i, j int) bool { return bytes.Compare(pcalls[i].key, pcalls[j].key) < 0 })
+		for _, c := range pcalls {
+			kinds = append(kinds, c.kind)
+			ocs = append(ocs, lib.Pair("[]", "OOk"))
+		}
+	}
 	hdr := resp.GetHeader().GetRevision()
 	cur2 := be.B.GetCurrentRevision()
 	post, err := decodedDump(inner)
@@ -480,6 +536,15 @@ func (w *worker) runVariant(cfg config, pre []lib.KV, preDec []lib.CsRec, hist u
 	for _, f := range rs.faults {
 		vo.outcomes = append(vo.outcomes, "fault-"+f.kind)
 	}
+	if rs.splits != nil {
+		var sj []string
+		for _, sp := range rs.splits {
+			uk, rev, _ := cd.Decode(sp)
+			sj = append(sj, fmt.Sprintf("%s@%d", uk, rev))
+		}
+		vo.json["partition_borders"] = sj
+		vo.outcomes = append(vo.outcomes, fmt.Sprintf("partitions-%d-%s", len(rs.splits)+1, rs.engine))
+	}
 	if len(executed) > 0 {
 		vo.outcomes = append(vo.outcomes, "interleaved-writers")
 	}
@@ -498,6 +563,7 @@ type history struct {
 	hist  uint64
 	json  []interface{}
 	revs  []uint64 // revisions at which something was written
+	hot   bool     // scripted: one key with a long version run, deleted
 }
 
 func buildHistory(r *lib.Rand, cfg config, scratch string, corpus int) (*history, error) {
@@ -557,6 +623,19 @@ func buildHistory(r *lib.Rand, cfg config, scratch string, corpus int) (*history
 		do("create", "/registry/leases/l", "l21")
 		do("update", "/registry/leases/l", "l22")
 		do("delete", "/registry/leases/l", "")
+	case 4: // a hot key: created, updated five times, deleted; neighbours on both sides; a second, live, hot key
+		h.hot = true
+		do("create", "/registry/pods/a", "a1")
+		for i := 2; i <= 6; i++ {
+			do("update", "/registry/pods/a", fmt.Sprintf("a%d", i))
+		}
+		do("delete", "/registry/pods/a", "")
+		do("create", "/registry/leases/l", "l8")
+		do("create", "/registry/pods/b", "b9")
+		do("update", "/registry/pods/b", "b10")
+		do("update", "/registry/pods/b", "b11")
+		do("update", "/registry/pods/b", "b12")
+		do("create", "/registry/skip/x", "x13")
 	case 3: // value,tombstone / value,value,tombstone / value,value: the order of the pass's deletes is load-bearing
 		do("create", "/registry/pods/a", "a1")
 		do("delete", "/registry/pods/a", "")
@@ -660,6 +739,16 @@ func main() {
 		}
 		hists = append(hists, h)
 	}
+	nPlain := len(hists)
+	for _, ci := range []int{0, 1, 3} { // none, one, nested
+		h, err := buildHistory(rnd.Fork(), configs[ci], args.Scratch, 4)
+		if err != nil {
+			w.Fail(lib.ImplFailure{CaseID: -1, What: "history: " + err.Error()})
+			continue
+		}
+		hists = append(hists, h)
+	}
+	_ = nPlain
 	// the borders of every configuration, observed on a real backend
 	borders := map[string]string{}
 	for _, cfg := range configs {
@@ -690,7 +779,7 @@ func main() {
 			Rs = append(Rs, rev)
 		}
 		faultSet := map[int]bool{}
-		isCorpus := hi < 3*len(configs)
+		isCorpus := hi < 3*len(configs) || h.hot
 		nFault := faultRs
 		if isCorpus {
 			nFault = faultRs + 1
@@ -798,6 +887,50 @@ func main() {
 	for ci, cj := range cases {
 		if len(outs[ci].variants) == 0 || outs[ci].variants[0].fail != "" {
 			continue
+		}
+		// several partitions whose borders fall inside the version run of one key: adjustPartitionsBorders must keep
+		// every key within one worker. Borders at versions of the key with the most versions (two consecutive borders
+		// inside one run, and a single one); the engine reports them (lib.Wrap over memkv) or is a TiKV mock split there
+		if cj.corpus && outs[ci].variants[0].ndel > 0 {
+			var hotK []byte
+			var hotRevs []uint64
+			byKey := map[string][]uint64{}
+			for _, rc := range cj.h.dec {
+				if !rc.Idx {
+					byKey[string(rc.K)] = append(byKey[string(rc.K)], rc.Rev)
+				}
+			}
+			for _, k := range keyPool {
+				if len(byKey[k]) > len(hotRevs) {
+					hotK, hotRevs = []byte(k), byKey[k]
+				}
+			}
+			if len(hotRevs) >= 3 {
+				n := len(hotRevs)
+				i1, i2 := n/3, (2*n)/3
+				if i1 < 1 {
+					i1 = 1
+				}
+				if i2 <= i1 {
+					i2 = i1 + 1
+				}
+				two := [][]byte{cd.EncodeObjectKey(hotK, hotRevs[i1]), cd.EncodeObjectKey(hotK, hotRevs[i2])}
+				one := [][]byte{cd.EncodeObjectKey(hotK, hotRevs[n-1])}
+				base := cj.specs[0]
+				spawn := func(rs runSpec) {
+					rs.req, rs.R, rs.round, rs.roundMode = base.req, base.R, base.round, base.roundMode
+					wg.Add(1)
+					go runOne(ci, rs, false)
+				}
+				spawn(runSpec{engine: lib.EngMem, splits: two})
+				if cj.h.hot || ci%3 == 0 {
+					spawn(runSpec{engine: lib.EngMem, splits: one})
+					spawn(runSpec{engine: lib.EngMem, splits: append(append([][]byte{}, two...), one...), metrics: true})
+				}
+				if (cj.h.hot && ci%2 == 0) || ci%7 == 0 {
+					spawn(runSpec{engine: engTiKVSplit, splits: two})
+				}
+			}
 		}
 		if len(cj.kind) < 7 || cj.kind[len(cj.kind)-7:] != "/faults" {
 			continue
@@ -928,7 +1061,7 @@ func main() {
 		}
 		w.Add(lib.Case{Kind: cj.kind, Coq: coq, JSON: j, Trivial: ndel == 0, Outcomes: oc})
 	}
-	if err := w.Finish("random histories over 8 keys (inside the prefix, under skipped prefixes, outside the prefix) with updates, deletes, re-creations and earlier (failing) compactions, plus two scripted ones, under 6 prefix/skipped-prefix configurations; one case per (history, R) for every revision R of the history, R=0 and R above current; variants: fault-free, delete call #i failing / dying / compare-failing for every i, two failures, writers interleaved between delete calls, a client Create of a tombstoned key placed exactly before the delete call on that key's index record (memkv, Badger, TiKV mock; the round then starts with an Update at the true revision); every second fault / interleaving variant runs with the storage metrics wrapper above the failing engine (the production stack); distinct = SHA-256 of the Coq case; non-trivial = the pass issued at least one engine delete"); err != nil {
+	if err := w.Finish("random histories over 8 keys (inside the prefix, under skipped prefixes, outside the prefix) with updates, deletes, re-creations and earlier (failing) compactions, plus two scripted ones, under 6 prefix/skipped-prefix configurations; one case per (history, R) for every revision R of the history, R=0 and R above current; variants: fault-free, delete call #i failing / dying / compare-failing for every i, two failures, writers interleaved between delete calls, a client Create of a tombstoned key placed exactly before the delete call on that key's index record (memkv, Badger, TiKV mock; the round then starts with an Update at the true revision); every second fault / interleaving variant runs with the storage metrics wrapper above the failing engine (the production stack); scripted cases (incl. a hot key created, updated x5, deleted) also on engines reporting 2-4 partitions with borders inside one key's version run (memkv behind lib.Wrap.Partitions, TiKV mock split at those keys), delete calls collected in key order; distinct = SHA-256 of the Coq case; non-trivial = the pass issued at least one engine delete"); err != nil {
 		fmt.Fprintln(os.Stderr, err)
 		os.Exit(2)
 	}
